@@ -21,7 +21,7 @@ import contextlib
 import io
 
 from ..common import execute_cases, qs
-from ..lib_callenv import lay, callenv, bits
+from ..lib_callenv import lay, callenv, bits, invoke, tweak_zeros
 
 S = 10**6
 HALS_CAP = 2000          # sweeps when not in exact=True mode (the solver's own stopping rule never fires, see report)
@@ -36,7 +36,8 @@ VARIANTS = [("hals", "cold"), ("hals", "ones"), ("hals", "exact"),
             ("active_set", "partial_a"), ("active_set", "partial_b"), ("active_set", "other"),
             ("active_set", "subopt_a"), ("active_set", "subopt_b"), ("active_set", "trunc1"), ("active_set", "trunc2"),
             ("active_set", "far4"), ("active_set", "far5"), ("active_set", "farc"),
-            ("admm", "none")]
+            ("fista", "alias_rhs"), ("active_set", "alias_rhs"),        # the start IS the right-hand side object (when it is >= 0)
+            ("admm", "none"), ("admm", "alias_dual")]
 # variants run on the extra batch of penalty-free problems reserved for the cheap solvers
 CHEAP_VARIANTS = [("active_set", v) for v in ("cold", "ones", "pos_small", "pos_big", "partial_a", "partial_b", "other",
                                                "subopt_a", "subopt_b", "trunc1", "trunc2", "far4", "far5", "farc")] + \
@@ -117,7 +118,7 @@ MAGS = (-40, -20, 0, 30)     # binary exponents of the change of units (NNLSTrac
 ERRSTATE_KEYS = ("divide", "over", "invalid")   # underflow is left at the caller's default: iterates legitimately decay to denormals
 
 
-def _run(case, G, B, start, n_iter=None, use_cb=True):
+def _run(case, G, B, start, n_iter=None, use_cb=True, use_env=True):
     """one call of the solver of this case from `start` (None = the solver's default start).
 
     Change of units (exact in binary floating point): the design is multiplied by 2^sa and the data by 2^sb, i.e. the
@@ -162,6 +163,32 @@ def _run(case, G, B, start, n_iter=None, use_cb=True):
             return len(calls) == 3               # True at the third sweep
         raise ValueError(cb)
 
+    # call dimensions (the result must not depend on them): positional / keyword arguments from the frozen signature table,
+    # the re-export tensorly.solvers.hals_nnls, None vs 0 for an absent penalty, zeros written as -0.0 / subnormals, the
+    # start aliased with UtM, a 1-D UtM for fista, an earlier failed call with the same array objects
+    form, spell = case.get("form", "kw"), case.get("spell", "none")
+    if use_env:
+        if case.get("vals", "plain") != "plain" and dt.kind == "f":
+            Gs, Bs = lay(tweak_zeros(Gs, case["vals"]).astype(dt), layout), lay(tweak_zeros(Bs, case["vals"]).astype(dt), layout)
+            before = (bits(Gs), bits(Bs), before[2])
+        if case.get("alias"):
+            st = Bs                                       # the start IS the right-hand side object (legal: it is non-negative)
+            before = (before[0], before[1], bits(st))
+        if case.get("entry") == "alias":
+            import tensorly.solvers as _pkg
+            hals_nnls = _pkg.hals_nnls
+    absent = 0.0 if spell == "zero" else None
+    if use_env and case.get("prev") == "failed":
+        try:                                              # refused half-way: a start of the wrong shape, same UtM / UtU objects
+            bad = np.ones((n + 1, k + 1), dtype=fdt)
+            if solver == "hals":
+                hals_nnls(Bs, Gs, V=bad, n_iter_max=2)
+            elif solver == "fista":
+                fista(Bs, Gs, x=bad, n_iter_max=2)
+            elif solver == "active_set":
+                active_set_nnls(Bs[:, 0], Gs, x=bad[:, 0], n_iter_max=2)
+        except Exception:
+            pass
     if solver == "hals":
         if n_iter is not None:
             kw = dict(n_iter_max=n_iter, tol=1e-16)
@@ -176,26 +203,33 @@ def _run(case, G, B, start, n_iter=None, use_cb=True):
         if cb != "none":
             kw["callback"] = callback
         Vin = None if st is None else st.copy()          # V is documented as mutable: hand over a private copy
+        vals = dict(UtM=Bs, UtU=Gs, V=Vin, sparsity_coefficient=(l1 if case["p1"] else absent),
+                    ridge_coefficient=(l2 if case["p2"] else absent), **kw)
         with callenv(err, ERRSTATE_KEYS), contextlib.redirect_stdout(io.StringIO()):
-            out = hals_nnls(Bs, Gs, V=Vin, sparsity_coefficient=(l1 if case["p1"] else None),
-                            ridge_coefficient=(l2 if case["p2"] else None), **kw)
+            out = invoke(hals_nnls, "hals_nnls", vals, form)
     elif solver == "fista":
         tol = 0.0 if variant == "tol0" else 1e-16
+        rhs = Bs[:, 0] if (case.get("vecrhs") and k == 1) else Bs          # fista documents x / UtM of any common shape
+        x0 = st if st is None or rhs is Bs else st[:, 0]
+        vals = dict(UtM=rhs, UtU=Gs, x=x0, sparsity_coef=(l1 if case["p1"] or spell == "zero" else None), ridge_coef=l2, tol=tol,
+                    n_iter_max=n_iter if n_iter is not None else min(case.get("cap", FISTA_CAP), FISTA_CAP),
+                    epsilon=eps if case.get("ep", 0) else 1e-8 * xs)        # the documented default floor, in the units of x
         with callenv(err, ERRSTATE_KEYS):
-            out = fista(Bs, Gs, x=st, sparsity_coef=l1, ridge_coef=l2, tol=tol,
-                        n_iter_max=n_iter if n_iter is not None else min(case.get("cap", FISTA_CAP), FISTA_CAP),
-                        epsilon=eps if case.get("ep", 0) else 1e-8 * xs)    # the documented default floor, in the units of x
+            out = np.asarray(invoke(fista, "fista", vals, form)).reshape(n, k)
     elif solver == "active_set":
         cols = []
         for j in range(k):
-            x0 = None if st is None else st[:, j]
+            col = Bs[:, j]
+            x0 = None if st is None else (col if st is Bs else st[:, j])
+            vals = dict(Utm=col, UtU=Gs, x=x0, tol=1e-16 * ms, n_iter_max=n_iter if n_iter is not None else 100)
             with callenv(err, ERRSTATE_KEYS):
-                cols.append(np.asarray(active_set_nnls(Bs[:, j], Gs, x=x0, tol=1e-16 * ms,
-                                                       n_iter_max=n_iter if n_iter is not None else 100)).reshape(n))
+                cols.append(np.asarray(invoke(active_set_nnls, "active_set_nnls", vals, form)).reshape(n))
         out = np.stack(cols, axis=1)
     elif solver == "admm":
+        zero = np.zeros((k, n), dtype=fdt)
+        vals = dict(UtM=Bs.T, UtU=Gs, x=zero, dual_var=(zero if case.get("alias") else np.zeros((k, n), dtype=fdt)), n_const=None)
         with callenv(err, ERRSTATE_KEYS):
-            x, _, _ = admm(Bs.T, Gs, np.zeros((k, n), dtype=fdt), np.zeros((k, n), dtype=fdt), n_const=None)
+            x, _, _ = invoke(admm, "admm", vals, form)
         out = np.asarray(x).T
     else:
         raise ValueError(solver)
@@ -270,7 +304,10 @@ def execute(case):
           "nzr": bool(case.get("nzr", False)), "zero_rows": 0, "ep": case.get("ep", 0), "eq": case.get("eq", 1),
           "sa": case.get("sa", 0), "sb": case.get("sb", 0), "dt": case.get("dt", "float64"),
           "layout": case.get("layout", "C"), "err": case.get("err", "default"), "cb": case.get("cb", "none"),
-          "mutG": False, "mutB": False, "mutS": False, "xref": [], "xreff": []}
+          "mutG": False, "mutB": False, "mutS": False, "xref": [], "xreff": [],
+          "form": case.get("form", "kw"), "entry": case.get("entry", "home"), "spell": case.get("spell", "none"),
+          "vals": case.get("vals", "plain"), "prev": case.get("prev", "none"), "alias": bool(case.get("alias", False)),
+          "vecrhs": bool(case.get("vecrhs", False))}
     if case["kind"] == "exact":
         ev.update(G=case["G"], B=case["B"])
     else:
@@ -345,14 +382,30 @@ def build_cases(chk, cfgs, thorough):
         return (0, 0) if rng.random() < 0.4 else (rng.choice(MAGS), rng.choice(MAGS))
 
     def draw_env():
-        """memory layout of the array arguments and caller-side error settings of one call: every value of each dimension
-        occurs, the two are not crossed (a non-default layout comes with the default error state and vice versa)"""
+        """call environment and call form of one call.  Every value of each dimension occurs; the dimensions are not crossed:
+        half the calls are plain (apart from positional / keyword arguments, which alternate everywhere), the others change
+        exactly one thing: the memory layout, the caller's error state, the entry point, the spelling of an absent penalty,
+        the way zeros are written, a 1-D right-hand side, or a previous failed call."""
+        env = {"layout": "C", "err": "default", "form": rng.choice(("pos", "kw"))}
         r = rng.random()
-        if r < 0.5:
-            return {"layout": "C", "err": "default"}
-        if r < 0.75:
-            return {"layout": rng.choice(("F", "strided", "readonly")), "err": "default"}
-        return {"layout": "C", "err": rng.choice(("ignore", "raise", "warnerr"))}
+        if r < 0.45:
+            return env
+        one = rng.choice(("layout", "layout", "err", "err", "entry", "spell", "negzero", "subnormal", "vecrhs", "prev"))
+        if one == "layout":
+            env["layout"] = rng.choice(("F", "strided", "readonly"))
+        elif one == "err":
+            env["err"] = rng.choice(("ignore", "raise", "warnerr"))
+        elif one == "entry":
+            env["entry"] = "alias"
+        elif one == "spell":
+            env["spell"] = "zero"
+        elif one in ("negzero", "subnormal"):
+            env["vals"] = one
+        elif one == "vecrhs":
+            env["vecrhs"] = True
+        else:
+            env["prev"] = "failed"
+        return env
 
     def draw_units():
         """(dtype of UtU / UtM, sa, sb): a quarter of the problems are posed with integer-typed normal equations"""
@@ -391,6 +444,12 @@ def build_cases(chk, cfgs, thorough):
                 if pi % 2 != CBS.index(variant) % 2:
                     continue
                 opt["cb"] = variant[3:]
+            if variant in ("alias_rhs", "alias_dual"):
+                # a legal start must be non-negative; with the design in other units (sa # 0) UtM is 4^sa away from the
+                # scale of x and would be an absurdly far start
+                if variant == "alias_rhs" and (sa != 0 or not all(x >= 0 for col in cols for x in col)):
+                    continue
+                opt["alias"] = True
             if variant == "nzr":
                 opt["nzr"] = True
             if variant == "eps":
@@ -416,7 +475,12 @@ def build_cases(chk, cfgs, thorough):
                 start = make_start(variant, rng, n, k, src)
             if variant.startswith("cb_") and pi % 4 >= 2:
                 start = make_start("ones", rng, n, k, None)
-            opt.update(draw_env())
+            env = draw_env()
+            if opt.get("alias"):
+                env.update(layout="C", vals="plain")          # the aliased start is the laid-out UtM itself
+            if solver != "fista" or k != 1:
+                env.pop("vecrhs", None)
+            opt.update(env)
             c = {"id": "C13/%s-%s/%06d" % (solver, variant, len(cases)), "kind": "exact", "solver": solver, "variant": variant,
                  "mode": mode, "G": [list(r) for r in G], "B": cols, "p1": p1, "p2": p2, "q": q_, "start": start, "flags": flags,
                  "sa": sa, "sb": sb, "dt": dt}
@@ -455,7 +519,7 @@ def build_cases(chk, cfgs, thorough):
         for solver, variant in (CHEAP_VARIANTS if cheap else VARIANTS):
             if solver in ("active_set", "admm") and (p1 or p2):
                 continue
-            if variant in ("exact", "eps"):
+            if variant in ("exact", "eps", "alias_rhs"):
                 continue           # no exact reference beyond 3 unknowns; the epsilon bound is judged in the exact tier only
             if solver == "hals" and ((variant == "nzr" and k < 2) or variant in ("subopt_a", "trunc") and t % 2):
                 continue
@@ -470,7 +534,12 @@ def build_cases(chk, cfgs, thorough):
                 if t % 2 != CBS.index(variant) % 2:
                     continue
                 opt["cb"] = variant[3:]
-            opt.update(draw_env())
+            env = draw_env()
+            if solver != "fista" or k != 1:
+                env.pop("vecrhs", None)
+            if variant == "alias_dual":
+                opt["alias"] = True
+            opt.update(env)
             start = None
             if variant in WARM and not (solver == "hals" and variant == "ones"):
                 src = other
@@ -533,6 +602,7 @@ def run(chk, opts):
         "options that are absolute by documentation (fista/hals epsilon, active_set tol) are scaled with the units -- the documented absolute defaults "
         "(fista epsilon=1e-8 floor, active_set tol=1e-7 on the gradient) are NOT exercised in small units",
         "call environment: every call draws a memory layout (C / Fortran / strided / read-only) for UtU, UtM and the start (hals' V is documented mutable: never read-only) and caller-side np.errstate(divide/over/invalid = ignore|raise) or warnings-as-errors; UtU, UtM (and the start of fista / active_set) must be bit-identical after the call",
+        "call forms: arguments positional / by published keyword (frozen signature table, alternating), tensorly.solvers.hals_nnls re-export, None vs 0 for an absent penalty, zeros written as -0.0 / +/-5e-324, 1-D UtM for fista, start aliased with UtM (fista, active_set) and x aliased with dual_var (admm), an earlier refused call on the same arrays",
         "hals callback: return values that are falsy or truthy-but-not-True must not stop the solver; True at sweep 3 must return the iterate after 3 sweeps",
         "dtype: a quarter of the problems pass int64 / int32 UtU and UtM (with floating-point warm starts); float32 in the measured tier",
         "options: hals nonzero_rows=True (no all-zero row unless the solution is zero), epsilon=1/2 for hals and fista (minimiser over x >= epsilon); "
